@@ -55,6 +55,7 @@ Definition units : list unit := [
   mkU "year" Time s_year 0;
   mkU "julian_year" Time s_year 0;
   mkU "century" Time (100 * s_year) 0;
+  mkU "megasecond" Time 1000000 0;
   (* angle, base radian *)
   mkU "radian" Angle 1 0;
   mkU "degree" Angle (1 # 180) 1;
@@ -183,3 +184,6 @@ Definition txt_def_ok (d : txt_def) : bool :=
               end
   | None => true
   end.
+
+(* history independence: the same factor requested twice in one process must be the same double *)
+Definition check_same_dy (c : dy * dy) : Z := if dy_eqb (fst c) (snd c) then 0 else 1.
